@@ -43,16 +43,17 @@ theorem get_default_of_ge (s : State) (a : Nat) (h : s.heap.length ≤ a) : s.ge
 
 /-! ### the part of an object that ref-counting is about -/
 
-/-- what the ref-count invariant reads: kind, ref-count, slots, id time, deleted flag -/
+/-- what the invariants read: kind, realm stamp, ref-count, slots, id time, deleted flag -/
 structure Core where
   kind : Kind
+  pkg : Nat
   rc : Int
   kids : List (Option Nat)
   time : Nat
   deleted : Bool
   deriving DecidableEq
 
-def core (o : Obj) : Core := ⟨o.kind, o.rc, o.kids, o.time, o.deleted⟩
+def core (o : Obj) : Core := ⟨o.kind, o.pkg, o.rc, o.kids, o.time, o.deleted⟩
 
 /-- same heap size, same cores -/
 def SameCore (s s' : State) : Prop :=
